@@ -71,7 +71,7 @@ class VT:
             body = m.group("apc")
             if not body.startswith("G"): self.log.append(("apc?", body[:10])); return
             ctrl, _, payload = body[1:].partition(";")
-            keys = dict(kv.split("=") for kv in ctrl.split(",") if kv)
+            keys = dict((kv.split("=", 1) + [""])[:2] for kv in ctrl.split(",") if kv)      # (a command cut short may hold half a key)
             self.log.append(("kitty", keys, len(payload)))
             if keys.get("a") == "T":
                 self._pending = keys
@@ -88,6 +88,8 @@ class VT:
                 return
             if keys.get("m", "0") == "0" and getattr(self, "_pending", None) and keys.get("a", "T") in ("T",) or (keys.get("m") == "0" and getattr(self, "_pending", None)):
                 k = self._pending; self._pending = None
+                if not (k.get("c", "").isdigit() and k.get("r", "").isdigit()):
+                    self.log.append(("kitty-malformed?", k)); return          # a transmission cut short and then terminated: nothing is placed
                 c, r = int(k["c"]), int(k["r"])
                 self._pid = getattr(self, "_pid", 0) + 1
                 for rr in range(self.row, self.row + r):
